@@ -312,6 +312,9 @@ class HyperparameterRangeFiniteRange(HyperparameterRange):
         if self._step_internal == 0:
             return 0
         else:
+            # Clip first (as ``FiniteRange._map_to_int`` does): ``y`` need not lie in
+            # the domain of the scaling (``cast_int`` can round a value to 0)
+            y = np.clip(y, self.lower_bound, self.upper_bound)
             y_int = np.clip(
                 self._scaling.to_internal(y), self._lower_internal, self._upper_internal
             )
